@@ -47,6 +47,7 @@ def shards(tier, seed):
 
 
 _single = {}
+_RECENT = []
 
 
 def one(lang, s, extra=None):
@@ -82,7 +83,11 @@ def check_compose(ctx, s, det, langs, ugo, dl):
     if dl:
         st["DEFAULT_LANGUAGES"] = dl
     del TRIED[:]
-    case = {"kind": "compose", "string": s, "languages": langs, "use_given_order": ugo, "DEFAULT_LANGUAGES": dl}
+    # the calls made just before are part of the witness (a selection remembered under the other ordering rule shows only then)
+    case = {"kind": "compose", "string": s, "languages": langs, "use_given_order": ugo, "DEFAULT_LANGUAGES": dl,
+            "prelude": list(_RECENT)}
+    _RECENT.append({"string": s, "languages": list(langs), "use_given_order": ugo, "DEFAULT_LANGUAGES": dl})
+    del _RECENT[:-3]
     try:
         m = DateDataParser(languages=langs, use_given_order=ugo, settings=st).get_date_data(s)
     except Exception as e:
@@ -150,7 +155,9 @@ def check_compose_locales(ctx, s, locs, ugo):
     from dateparser.data.languages_info import language_order
     from dateparser.date import DateDataParser
 
-    case = {"kind": "compose-locales", "string": s, "locales": locs, "use_given_order": ugo}
+    case = {"kind": "compose-locales", "string": s, "locales": locs, "use_given_order": ugo, "prelude": list(_RECENT)}
+    _RECENT.append({"string": s, "locales": list(locs), "use_given_order": ugo})
+    del _RECENT[:-3]
     try:
         m = DateDataParser(locales=list(locs), use_given_order=ugo, settings={"RELATIVE_BASE": B}).get_date_data(s)
     except Exception as e:
@@ -339,6 +346,19 @@ def finalize(merged, tier, seed):
 def replay_case(ctx, v):
     install_tap()
     c = v["case"]
+    if c["kind"] in ("compose", "compose-locales"):
+        from dateparser.date import DateDataParser
+
+        for pc in c.get("prelude") or []:
+            st = {"RELATIVE_BASE": B}
+            if pc.get("DEFAULT_LANGUAGES"):
+                st["DEFAULT_LANGUAGES"] = pc["DEFAULT_LANGUAGES"]
+            try:
+                kw = {"locales": pc["locales"]} if pc.get("locales") else {"languages": pc["languages"]}
+                DateDataParser(use_given_order=pc["use_given_order"], settings=st, **kw).get_date_data(pc["string"])
+            except Exception:
+                pass
+        del _RECENT[:]
     if c["kind"] == "compose-locales":
         check_compose_locales(ctx, c["string"], c["locales"], c["use_given_order"])
     elif c["kind"] == "compose":
